@@ -372,8 +372,8 @@ def main():
                             for b in st['batches']]
                 except Exception:
                     pass
-                if req.get('only_if_resolved') and result['can_simulate'] and \
-                        not result['diff_empty']:
+                if req.get('only_if_resolved') and result['required'] and \
+                        result['can_simulate'] and not result['diff_empty']:
                     # what the evolve command does before executing anything
                     from django_evolution.errors import EvolutionException
                     raise EvolutionException(
